@@ -10,12 +10,15 @@ import os
 import re
 import shutil
 import subprocess
+import sys
 import tempfile
 import time
 
 HERE = os.path.dirname(os.path.abspath(__file__))
 VERIF = os.path.dirname(HERE)
 CACHE = os.path.join(VERIF, '.cache', 'kani-target')
+sys.path.insert(0, VERIF)
+import cachestamp  # noqa: E402
 
 
 class KaniSetupError(Exception):
@@ -45,6 +48,7 @@ def prepare_scratch(repo, splices):
     os.makedirs(os.path.join(d, '.cargo'), exist_ok=True)
     with open(os.path.join(d, '.cargo', 'config.toml'), 'w') as f:
       f.write('[net]\noffline = true\n')
+    cachestamp.stamp(d, CACHE)
   except Exception:
     shutil.rmtree(d, ignore_errors=True)
     raise
@@ -110,6 +114,8 @@ def run_harnesses(scratch, crate, modname, harnesses, jobs=8, timeout_s=240, unw
   except subprocess.TimeoutExpired as e:
     out = (e.stdout or '') if isinstance(e.stdout, str) else (e.stdout or b'').decode('utf-8', 'replace')
     out += '\n[overall timeout]\n'
+  else:
+    cachestamp.finished(CACHE)   # cargo ran to its end: the cache now corresponds to the stamped sources
   wall = time.time() - t0
   shutil.rmtree(outdir, ignore_errors=True)
   # split the interleaved terse log by thread
